@@ -31,7 +31,7 @@ FRAME_T = [k + "T" for k in FRAME_INVS] + ["BoundedProgress", "BoundedProgressSi
 FRAME = GFamily("packet/PacketFrameGraph", "packet/PacketFrameTrace", FACTORY, hint=fam.FrameHint(),
                 clause_map=dict([(k, k + "T") for k in FRAME_INVS] +
                                 [("Liveness", "BoundedLiveness")]),
-                describe=fam.describe)
+                describe=fam.describe, fmt="hash")
 
 FIFO_INVS = ["OnlyCompletePackets", "InOrder", "ParamOfPacket", "ValidHold", "Bounded"]
 FIFO_PROPS = ["Liveness"]      # = Progress /\ ProgressSink /\ NothingLost
@@ -39,7 +39,7 @@ FIFO_T = [k + "T" for k in FIFO_INVS] + ["BoundedProgress", "BoundedProgressSink
 FIFO = GFamily("packet/PacketFifoGraph", "packet/PacketFifoTrace", FACTORY, hint=fam.FifoHint(),
                clause_map=dict([(k, k + "T") for k in FIFO_INVS] +
                                [("Liveness", "BoundedLiveness")]),
-               describe=fam.describe)
+               describe=fam.describe, fmt="hash")
 
 ROUTE_INVS = ["BeatsInOrder", "SelLatchedOnFirst", "Atomic", "ValidHold", "Bounded", "ExactlyOnce", "BoundedWait"]
 ROUTE_PROPS = ["Served"]      # Delivered follows from Bounded for cap = 0 (all DUTs here are combinational)
@@ -47,7 +47,7 @@ ROUTE_T = [k + "T" for k in ROUTE_INVS] + ["BoundedService", "BoundedDelivery"]
 ROUTE = GFamily("packet/PacketRouteGraph", "packet/PacketRouteTrace", FACTORY, hint=fam.RouteHint(),
                 clause_map=dict([(k, k + "T") for k in ROUTE_INVS] +
                                 [("Served", "BoundedService"), ("Delivered", "BoundedDelivery")]),
-                describe=fam.describe)
+                describe=fam.describe, fmt="hash")
 
 FAMS = {"frame": (FRAME, FRAME_INVS, FRAME_PROPS, FRAME_T), "fifo": (FIFO, FIFO_INVS, FIFO_PROPS, FIFO_T),
         "route": (ROUTE, ROUTE_INVS, ROUTE_PROPS, ROUTE_T)}
@@ -257,7 +257,7 @@ def sim_route(spec, ncycles, rnd, pvalid, pready):
                     cur[i] = pkt[i][idx[i]]
                 if cur[i] is not None:
                     nv += [1, cur[i][0], cur[i][1], cur[i][2]]
-                    if idx[i] == 0 and len(cfg["sels"]) > 1:
+                    if idx[i] == 0 and len(selvals) > 1:
                         # sel belongs to the offer of a first beat: steady while that beat waits
                         hold_sel = hold_sel or (vals[4 * i] == 1 and vals[4 * i + 1:4 * i + 4] == list(cur[i]))
                 else:
@@ -364,8 +364,8 @@ def _one_trace(spec, seedstr, ncyc):
 
 
 def run_tmode(report, tier, seed):
-    ntr = 2 if tier == "quick" else 10
-    ncyc = 300 if tier == "quick" else 1200
+    ntr = 2 if tier == "quick" else 5
+    ncyc = 300 if tier == "quick" else 600
     per = {"frame": ([], []), "fifo": ([], []), "route": ([], [])}
     jobs = [(spec, _tseed(seed, i, k), ncyc) for i, spec in enumerate(tmode_specs(tier)) for k in range(ntr)]
     pool = mp.get_context("fork").Pool(6)
@@ -379,23 +379,27 @@ def run_tmode(report, tier, seed):
     for name in ("frame", "fifo", "route"):
         family, _, _, tinv = FAMS[name]
         traces, meta = per[name]
-        fails, st = tracecheck.validate(family.trace_module, traces, tinv, workers=4)   # big JSON constant: few workers
-        report.add(traces_validated_against_impl=len(traces), trace_states=st["states"])
+        # tracecheck names one failing trace per TLC run: traces of environment classes with a recorded finding are
+        # validated in small groups of their own, all other traces together
+        groups = {}
+        for i, (spec, ss, nc) in enumerate(meta):
+            key = json.dumps(spec, sort_keys=True) if expected_to_fail(spec) else ""
+            groups.setdefault(key, []).append(i)
+        fails = []
+        for key in sorted(groups):
+            idx = groups[key]
+            fl, st = tracecheck.validate(family.trace_module, [traces[i] for i in idx], tinv, workers=4,
+                                         max_failures=len(idx) + 1 if key else 8)
+            for f in fl:
+                f["tid"] = idx[f["tid"]]
+            fails += fl
+            report.add(trace_states=st["states"])
+            if not key and len(fl) >= 8:
+                report.note("T-mode %s: %d traces rejected, the remaining ones of this batch were not judged" % (name, len(fl)))
+        report.add(traces_validated_against_impl=len(traces))
         report.sample({"tmode_trace_head": {"dut": fam.describe(meta[0][0]), "first_cycles": traces[0]["ev"][:4]}}, cap=12)
-        seen = set()
-        # after the first rejected cycle of a trace the monitor is out of step with the DUT: only the first
-        # failing clause of every trace is a verdict
-        first = {}
-        for f in fails:
-            if f["tid"] not in first or (f["l"], tinv.index(f["clause"])) < (first[f["tid"]]["l"], tinv.index(first[f["tid"]]["clause"])):
-                first[f["tid"]] = f
-        for tid in sorted(first):
-            f = first[tid]
+        for f in sorted(fails, key=lambda f: f["tid"]):
             spec, ss, nc = meta[f["tid"]]
-            key = (json.dumps(spec, sort_keys=True), f["clause"])
-            if key in seen:
-                continue
-            seen.add(key)
             tr = traces[f["tid"]]
             report.violation({"dut": spec, "clause": f["clause"]},
                              {"mode": "T", "family": name, "spec": spec, "cfg": tr["cfg"], "simseed": ss, "ncycles": nc,
@@ -411,7 +415,7 @@ def run_canary(report):
     construction.  The check must see that (ProgressSink fails); otherwise it has lost its sensitivity."""
     spec = {"fam": "fifo", "cls": "PacketFIFO", "dw": 8, "pw": 1, "depth": 2, "minlen": 4, "maxlen": 4, "env": "canary"}
     gl = GraphLoop(FIFO.graph_module, FACTORY, [(spec, fam.tla_cfg(spec))], invariants=[], properties=["ProgressSink"],
-                   hint=FIFO.hint, spec_name="Spec", workers=4, log=lambda m: None, heap="4g")
+                   hint=FIFO.hint, spec_name="Spec", workers=4, log=lambda m: None, heap="4g", fmt="hash")
     try:
         res = gl.run()
     finally:
@@ -526,9 +530,13 @@ def expected_to_fail(spec):
 
 def build_lanes(tier):
     lanes = []
-    followup = {"followup": tier == "thorough"}
     quick = tier == "quick"
+    followup = {"followup": False}          # DUTs with spec["followup"] are followed up (thorough tier only, see below)
     frames = fam.frame_configs(tier)
+    fifos = fam.fifo_configs(tier)
+    if quick:
+        for s in frames + fifos:
+            s.pop("followup", None)
     ok = [s for s in frames if not expected_to_fail(s)]
     bad = [s for s in frames if expected_to_fail(s)]
     if quick:
@@ -545,7 +553,6 @@ def build_lanes(tier):
         part = bad[k::nb]
         if part:
             lanes.append(("frame-findings-%d" % k, ("g", "frame", [_pairs([s]) for s in part], followup)))
-    fifos = fam.fifo_configs(tier)
     okf = [s for s in fifos if not expected_to_fail(s)]
     badf = [s for s in fifos if expected_to_fail(s)]
     big = [s for s in okf if s["depth"] >= 4]
@@ -557,7 +564,9 @@ def build_lanes(tier):
         lanes.append(("fifo-d3-%d" % (k // 2), ("g", "fifo", [_pairs(d3[k:k + 2])], followup)))
     for k, s in enumerate(big):
         lanes.append(("fifo-big-%d" % k, ("g", "fifo", [_pairs([s])], dict(followup, spec_budget=400000, total_budget=3000000))))
-    lanes.append(("fifo-findings", ("g", "fifo", [_pairs([s]) for s in badf], followup)))
+    for k in range(2):
+        if badf[k::2]:
+            lanes.append(("fifo-findings-%d" % k, ("g", "fifo", [_pairs([s]) for s in badf[k::2]], followup)))
     routes = fam.route_configs(tier)
     heavy = [s for s in routes if s["n"] >= 3 or s["m"] >= 4]
     light = [s for s in routes if s not in heavy]
